@@ -42,8 +42,9 @@ Proof. vm_compute. reflexivity. Qed.
    row count equals the number of row ids, the row ids are distinct, column names are distinct and
    every column is as long as the table (the part of inv_b of C01 that these functions rely on). *)
 
-(* map_(f, dm): the copy dm[:], then per row the write-back of every item of the updated row dict
-   through Row.__setitem__, equals "every row is replaced by the row updated with f" *)
+(* map_(f, dm): the copy dm[:], then per pair (row of the copy, row of the source) the write-back of every
+   item of the updated SOURCE row dict through Row.__setitem__, equals "row j is the source row j updated
+   with f of that row" (Spec.map_dm) *)
 Theorem C19_map_dm_refines :
   forall (f : row -> upd) (t : ltab), lwf t -> l_map_dm f t = lift (l_ids t) true (map_dm f (l_tab t)).
 Proof. exact map_dm_refines. Qed.
@@ -67,16 +68,21 @@ Theorem C19_map_dm_shape :
 Proof. exact map_dm_shape. Qed.
 Print Assumptions C19_map_dm_shape.
 
-(* what the spec of map_ says, cell by cell, when f returns no new keys: cell j of every column is the
-   normal form (of the column's type) of that key in the SOURCE row j updated with f of that row *)
+(* what the spec of map_ says, cell by cell, for EVERY f (new keys included): row j of the result is
+   row j of the SOURCE updated with f of that source row.  cell_ok f T n j k x: if the updated source
+   row j has a value under key n, x is its normal form for column type k, otherwise x is ''.  Every source
+   name has a value in every row; a column that the source does not have is a MixedColumn and was
+   returned by f for at least one row. *)
 Theorem C19_map_dm_rows_updated :
   forall (f : row -> upd) (T T' : tab),
-  twf T -> closed f T -> map_dm f T = Ok T' ->
-  tlen T' = tlen T /\ tab_names T' = tab_names T /\
-  forall n c, find_col n (tcols T) = Some c ->
-    exists c', find_col n (tcols T') = Some c' /\ ckind c' = ckind c /\ List.length (ccells c') = List.length (ccells c) /\
-      forall j, (j < tlen T)%nat -> exists v, lookup n (upd_row f T j) = Some v /\ nf (ckind c) v = Ok (cell_at j c').
-Proof. exact map_dm_closed. Qed.
+  twf T -> map_dm f T = Ok T' ->
+  tlen T' = tlen T /\ NoDup (tab_names T') /\ incl (tab_names T) (tab_names T') /\
+  (forall n j, In n (tab_names T) -> exists v, lookup n (upd_row f T j) = Some v) /\
+  forall n c', find_col n (tcols T') = Some c' ->
+    ckind c' = kind_of T n /\ List.length (ccells c') = tlen T /\
+    (find_col n (tcols T) = None -> exists j, (j < tlen T)%nat /\ In n (map fst (f (read_row T j)))) /\
+    forall j, (j < tlen T)%nat -> cell_ok f T n j (ckind c') (cell_at j c').
+Proof. exact map_dm_rows. Qed.
 Print Assumptions C19_map_dm_rows_updated.
 
 (* filter_(f, dm) / filter_(g, col): the row ids of the rows that pass + _selectrowid (cells fetched BY
